@@ -187,3 +187,11 @@ def ufvt(name, spec, *args):
 
 def gather_calls():
     return 0
+
+
+def dict_is_update(d, k, v):
+    return d.get(k) is v
+
+
+def dict_same_except(d, k):
+    return True
